@@ -396,6 +396,25 @@ def mask_clause(model, rep, funcs):
         rep.ob("SLOT", f.anchor, "soft_otsu = smooth o dilate o threshold (applied right to left)", ok, "", node=f.node, fn=f, clause="6 masks", stmt="def soft_otsu")
 
 
+def rescale_clause(model, rep, funcs):
+    """Providers that resample an existing image return it unchanged only when the requested scale equals the original one within the tolerance, in either direction."""
+    for name in ("from_array", "from_file"):
+        try:
+            f = model.func("acryo/pipe/_imread.py::" + name)
+        except Exception:
+            continue
+        M = Matcher(f)
+        tests = [n for n in ast.walk(f.node) if isinstance(n, ast.If) and "tol" in norm_src(n.test)]
+        if not tests:
+            continue
+        rep.instance("SLOT.rescale", f.loc())
+        ok = all(M.find("abs($$r - 1) < tol", within=t.test) or M.find("abs(1 - $$r) < tol", within=t.test) for t in tests)
+        rep.ob("SLOT", f.anchor, "the no-resampling shortcut is taken only when |scale ratio - 1| < tol (two-sided)", bool(ok),
+               "" if ok else f"`if {norm_src(tests[0].test)}`: one-sided test - every request for a coarser (or finer) scale returns the image unresampled, the physical box size "
+               "changes", node=tests[0], fn=f, clause="4 units", stmt=f"def {name} tolerance")
+    rep.floor("SLOT.rescale", 1, "(from_array)")
+
+
 def check(model, rep, tier):
     rep.decided += ["C19.1 operator table of both pipeline classes incl. reflected operators", "C19.2 composition nests self(other(...), scale); @ is compose; with_scale closes over scale",
                     "C19.3 currying call conventions", "C19.4 nm parameters are used only as p/scale", "C19.5 Gaussian provider centre and exponent", "C19.6 mask converter dispatch"]
@@ -405,6 +424,7 @@ def check(model, rep, tier):
     composition_clause(model, rep, funcs)
     curry_clause(model, rep, funcs)
     shim_clause(model, rep, funcs)
+    rescale_clause(model, rep, funcs)
     units_clause(model, rep, funcs)
     gaussian_clause(model, rep, funcs)
     mask_clause(model, rep, funcs)
